@@ -1189,10 +1189,13 @@ where
         if safe.active_blob.is_none() {
             Err(Error::active_blob_doesnt_exist().into())
         } else {
+            // Sync before the blob is taken out: an error (or a dropped future) at this point must leave it in place
+            if let Some(ablob) = safe.active_blob.as_ref() {
+                ablob.read().await.fsyncdata().await?;
+            }
             // always true
             if let Some(ablob) = safe.active_blob.take() {
                 let ablob = (*ablob).into_inner();
-                ablob.fsyncdata().await?;
                 safe.blobs.write().await.push(ablob).await;
             }
             Ok(())
